@@ -39,7 +39,11 @@ class Ctx:
         self.is_main = False
 
     def vars(self):
-        return [v for sc in self.scopes for v in sc]
+        allv = [v for sc in self.scopes for v in sc]
+        last = {}
+        for i, v in enumerate(allv):
+            last[v.name] = i
+        return [v for i, v in enumerate(allv) if last[v.name] == i]
 
     def push(self):
         self.scopes.append([])
@@ -49,6 +53,18 @@ class Ctx:
 
     def add(self, v):
         self.scopes[-1].append(v)
+
+
+class IfaceMeth:
+    """a method promoted from an embedded interface: looks like a Func to the code that picks call targets"""
+
+    def __init__(self, d, mn, ps, rs):
+        self.mname, self.recv, self.is_iface = mn, (d, False), True
+        self.pure = bool(d.pure_methods.get(mn))
+        self.params = [Var(0, 'm', ('named', d))] + [Var(0, 'a', t) for t in ps]
+        self.results = [Var(0, 'r', t) for t in rs]
+        self.cost = 30
+        self.pkg = d.pkg
 
 
 class Gen:
@@ -124,9 +140,12 @@ class Gen:
             return BOOL
         if r < 0.68:
             return STR
-        if r < 0.8 and self.structs and d > 0:
-            return ('named', self.rng.choice(self.structs))
+        if r < 0.8 and self.ustructs() and d > 0:
+            return ('named', self.rng.choice(self.ustructs()))
         if r < 0.9 and d > 0:
+            if self.ustructs() and self.rng.random() < 0.35:
+                self.feat.add('array-of-structs')
+                return ('arr', self.rng.randint(1, 3), ('named', self.rng.choice(self.ustructs())))
             return ('arr', self.rng.randint(1, 4), self.simple_type(0))
         if self.nameds and r < 0.95:
             return ('named', self.rng.choice(self.nameds))
@@ -137,10 +156,23 @@ class Gen:
         nf = self.rng.randint(1, 4)
         own = []
         emb = None
-        if self.structs and self.rng.random() < 0.6:
+        r = self.rng.random()
+        if self.structs and r < 0.6:
             emb = self.rng.choice(self.structs)
-            d.fields.append((emb.name, ('named', emb), True))
+            d.pkg = max(d.pkg, emb.pkg)
+            if self.rng.random() < 0.35:
+                d.fields.append((emb.name, ('ptr', ('named', emb)), True))     # embedded *T
+                self.feat.add('embedded-pointer')
+            else:
+                d.fields.append((emb.name, ('named', emb), True))
             self.feat.add('embedding')
+        elif self.ifaces and r < 0.8:
+            it = self.ifaces[0]
+            d.pkg = max(d.pkg, it.pkg)
+            d.fields.append((it.name, ('named', it), True))                  # embedded interface: its methods are promoted
+            d.has_iface_embed = True
+            self.feat.add('embedded-interface')
+        self.cur_pkg = max(self.cur_pkg, d.pkg)
         for _ in range(nf):
             self.nfield += 1
             name = 'F%d' % self.nfield
@@ -155,9 +187,29 @@ class Gen:
         self.structs.append(d)
         return d
 
+    def needs_init(self, t):
+        """does the zero value of t contain a nil pointer / interface / func that generated code would dereference?"""
+        u = under(t)
+        if not isinstance(u, tuple):
+            return u == 'any'
+        if u[0] in ('ptr', 'func'):
+            return True
+        if u[0] == 'arr':
+            return self.needs_init(u[2])
+        if u[0] == 'named':
+            if u[1].kind == 'iface':
+                return True
+            return u[1].kind == 'struct' and any(self.needs_init(f[1]) for f in u[1].fields)
+        return False
+
+    @staticmethod
+    def emb_decl(ft):
+        """declaration an embedded field of type ft promotes from"""
+        return ft[1][1] if ft[0] == 'ptr' else ft[1]
+
     def fields_of(self, d):
-        """selector table of struct d: name -> (type, depth) with Go's shallowest-depth rule (names are unique per depth
-        by construction)"""
+        """selector table of struct d: name -> type, with Go's shallowest-depth rule through embedded T and *T
+        (names are unique per depth by construction)"""
         out = {}
         level = [d]
         depth = 0
@@ -165,10 +217,12 @@ class Gen:
             nxt = []
             names = {}
             for s in level:
+                if s.kind != 'struct':
+                    continue
                 for fn, ft, emb in s.fields:
                     names.setdefault(fn, []).append(ft)
                     if emb:
-                        nxt.append(ft[1])
+                        nxt.append(self.emb_decl(ft))
             for fn, fts in names.items():
                 if fn not in out:
                     out[fn] = (fts[0], depth) if len(fts) == 1 else (None, depth)
@@ -177,7 +231,7 @@ class Gen:
         return {k: v[0] for k, v in out.items() if v[0] is not None}
 
     def methods_of(self, d):
-        """method table of struct/named type d with promotion: name -> Func"""
+        """method table of struct/named type d with promotion (through embedded T, *T and interfaces): name -> Func | IfaceMeth"""
         out = {}
         level = [d]
         depth = 0
@@ -185,12 +239,16 @@ class Gen:
             nxt = []
             names = {}
             for s in level:
+                if s.kind == 'iface':
+                    for mn, ps, rs in s.methods:
+                        names.setdefault(mn, []).append(IfaceMeth(s, mn, ps, rs))
+                    continue
                 for f in s.mdecls:
                     names.setdefault(f.mname, []).append(f)
                 if s.kind == 'struct':
                     for fn, ft, emb in s.fields:
                         if emb:
-                            nxt.append(ft[1])
+                            nxt.append(self.emb_decl(ft))
             for mn, fs in names.items():
                 if mn not in out:
                     out[mn] = fs[0] if len(fs) == 1 else None
@@ -270,14 +328,14 @@ class Gen:
         """a value of a composite type: an existing place or a literal"""
         c = self.of_type(cx, ty)
         u = under(ty)
-        if c and self.rng.random() < 0.6:
+        if c and (self.rng.random() < 0.6 or not self.can_build(cx, ty)):
             return self.rng.choice(c)
         fs = [f for f in self.pure_funcs if len(f.results) == 1 and f.results[0].ty == ty and f.pkg <= cx.pkg]
         if fs and d > 0 and self.rng.random() < 0.3:
             f = self.rng.choice(fs)
             if self.affordable(cx, f.cost):
                 self.charge(cx, f.cost)
-                return Call(f, [self.expr(cx, p.ty, d - 1) for p in f.params])
+                return self.mk_call(cx, f, d - 1)
         if u == BOOL:
             return BoolLit(self.rng.random() < 0.5)
         if u == STR:
@@ -352,6 +410,18 @@ class Gen:
                 return e
         return self.int_expr(cx, ty, 0, nonconst)
 
+    def mk_call(self, cx, f, d=2):
+        """a call of top-level function f with generated arguments (packs or spreads the variadic part)"""
+        if not getattr(f, 'variadic', False):
+            return Call(f, [self.expr(cx, p.ty, d) for p in f.params])
+        fixed = [self.expr(cx, p.ty, d) for p in f.params[:-1]]
+        vt = f.params[-1].ty
+        spreadable = [e for e in self.of_type(cx, vt)]
+        self.feat.add('variadic-call')
+        if spreadable and self.rng.random() < 0.3:
+            return Call(f, fixed + [self.rng.choice(spreadable)], spread=True)
+        return Call(f, fixed + [self.expr(cx, vt[1], d) for _ in range(self.rng.randint(0, 3))])
+
     def pure_call(self, cx, ty, d):
         cands = []
         for f in self.pure_funcs:
@@ -393,7 +463,7 @@ class Gen:
         if cands:
             f = self.rng.choice(cands)
             self.charge(cx, f.cost)
-            return Call(f, [self.expr(cx, p.ty, d - 1) for p in f.params])
+            return self.mk_call(cx, f, d - 1)
         return None
 
     def bool_expr(self, cx, d):
@@ -417,6 +487,7 @@ class Gen:
                      and under(t)[0] != 'ptr']
             if cands:
                 e, t = r.choice(cands)
+                self.feat.add('struct-or-array-compare')
                 return Bin(r.choice(['eq', 'ne']), e, self.leaf(cx, t, 1))
         e = self.pure_call(cx, BOOL, d)
         return e or self.bool_expr(cx, 0)
@@ -459,18 +530,78 @@ class Gen:
             e = self.str_expr(cx, d)
         elif r < 0.7:
             e = self.bool_expr(cx, d)
-        elif self.structs and r < 0.9:
-            e = self.leaf(cx, ('named', self.rng.choice([s for s in self.structs if s.pkg <= cx.pkg])), d)
+        elif [s for s in self.ustructs() if s.pkg <= cx.pkg] and r < 0.9:
+            e = self.leaf(cx, ('named', self.rng.choice([s for s in self.ustructs() if s.pkg <= cx.pkg])), d)
         else:
             e = self.int_expr(cx, INT, d, nonconst=True)
         return ToIface('any', e)
 
     def iface_value(self, cx, ity, d=1):
         """a non-nil value of declared interface type ity"""
-        impls = [t for t in ity[1].impls if self.type_pkg(t) <= cx.pkg]
-        t = self.rng.choice(impls)
+        t = self.rng.choice(self.flat_impls(cx, ity))
         self.feat.add('iface-conversion')
         return ToIface(ity, self.leaf(cx, t, d))
+
+    def has_iface(self, t):
+        """does a value of type t contain an interface value somewhere (directly, in a field, behind a pointer)?"""
+        u = under(t)
+        if not isinstance(u, tuple):
+            return u == 'any'
+        if u[0] == 'named':
+            if u[1].kind == 'iface':
+                return True
+            return u[1].kind == 'struct' and any(self.has_iface(f[1]) for f in u[1].fields)
+        if u[0] in ('ptr', 'slice'):
+            return self.has_iface(u[1])
+        if u[0] == 'arr':
+            return self.has_iface(u[2])
+        return False
+
+    def buildable(self, t, pkg=None):
+        """can values of type t be written down wherever t is visible (every interface part has an implementation, built
+        without a further interface value, in a package no later than the type's)?"""
+        u = under(t)
+        if not isinstance(u, tuple):
+            return True
+        if u[0] == 'named':
+            d = u[1]
+            p = d.pkg if pkg is None else max(pkg, d.pkg)
+            if d.kind == 'iface':
+                return any(self.type_pkg(x) <= p and not self.has_iface(x) for x in getattr(d, 'impls', []))
+            if d.kind == 'struct':
+                return all(self.buildable(f[1], p) for f in d.fields)
+            return True
+        if u[0] in ('ptr', 'slice'):
+            return self.buildable(u[1], pkg)
+        if u[0] == 'arr':
+            return self.buildable(u[2], pkg)
+        return True
+
+    def ustructs(self):
+        return [s for s in self.structs if self.buildable(('named', s))]
+
+    def flat_impls(self, cx, ity):
+        """implementations visible from cx that can be built without another interface value"""
+        return [t for t in getattr(ity[1], 'impls', []) if self.type_pkg(t) <= cx.pkg and not self.has_iface(t)]
+
+    def can_build(self, cx, t):
+        """can a fresh value of type t be written down here? (interface-typed parts need a visible implementation)"""
+        u = under(t)
+        if not isinstance(u, tuple):
+            return True
+        if u[0] == 'named':
+            if u[1].pkg > cx.pkg:
+                return False
+            if u[1].kind == 'iface':
+                return bool(self.flat_impls(cx, u))
+            if u[1].kind == 'struct':
+                return all(self.can_build(cx, f[1]) for f in u[1].fields)
+            return True
+        if u[0] in ('ptr', 'slice'):
+            return self.can_build(cx, u[1])
+        if u[0] == 'arr':
+            return self.can_build(cx, u[2])
+        return True
 
     def type_pkg(self, t):
         if isinstance(t, tuple):
@@ -539,9 +670,9 @@ class Gen:
         r = self.rng
         choices = [('decl', 14), ('assign', 16), ('print', 10 if not cx.pure else 0), ('opassign', 8), ('swap', 4)]
         if cx.depth < 4:
-            choices += [('if', 10), ('for', 9), ('switch', 5), ('range', 7)]
+            choices += [('if', 10), ('for', 9), ('switch', 5), ('range', 7), ('shadow', 3)]
         if not cx.pure:
-            choices += [('call', 10), ('closure', 5), ('slice', 7), ('strops', 4), ('pointer', 5), ('iface', 5), ('tswitch', 4), ('rangefunc', 3)]
+            choices += [('call', 10), ('closure', 5), ('slice', 7), ('strops', 4), ('methodval', 4), ('pointer', 5), ('iface', 5), ('tswitch', 4), ('rangefunc', 3)]
         if cx.loops and cx.depth >= 1:
             choices += [('jump', 6)]
         if cx.results is not None and cx.depth >= 1 and not cx.is_main:
@@ -559,7 +690,7 @@ class Gen:
         if self.type_pkg(ty) > cx.pkg:
             ty = tint(self.kind())
         v = self.newvar(cx, ty)
-        if self.rng.random() < 0.12:
+        if self.rng.random() < 0.12 and not self.needs_init(ty):
             st = Decl([v], [], zero=True)
         else:
             st = Decl([v], [self.expr(cx, ty, 2)])
@@ -641,6 +772,8 @@ class Gen:
         return 'L%d' % self.nlabel
 
     def loop_body(self, cx, trips, kind='for'):
+        if any(l['kind'] == 'switch' for l in cx.loops):
+            self.feat.add('loop-inside-switch')
         rec = {'lbl': self.label(), 'kind': kind, 'used': False}
         cx.loops.append(rec)
         old = cx.mult
@@ -813,6 +946,9 @@ class Gen:
             if v:
                 v.readonly = True
                 cx.add(v)
+        if vx and isinstance(under(vty), tuple) and under(vty)[0] == 'named':
+            vx.readonly = False          # assigning to the iteration variable must not touch the sequence
+            self.feat.add('range-value-is-a-copy')
         body, lbl = self.loop_body(cx, trips)
         cx.pop()
         self.feat.add('range-' + seqkind(t))
@@ -851,7 +987,7 @@ class Gen:
             return None
         kind, f, extra = self.rng.choice(ts)
         if kind == 'fn':
-            call = Call(f, [self.expr(cx, p.ty, 2) for p in f.params])
+            call = self.mk_call(cx, f, 2)
             rtys, cost = [r.ty for r in f.results], f.cost
         elif kind == 'clo':
             sig = under(f.ty)[1]
@@ -964,8 +1100,16 @@ class Gen:
         f.cost = 5
         self.P.add_func(f, printed=False)
         cx.pop()
-        loop = For('', [Decl([i], [IntLit(k, 0)])], Bin('lt', VarRef(i), IntLit(k, n)), [OpAssign('add', VarRef(i), IntLit(k, 1), incdec=True)],
-                   [Assign([VarRef(fs)], [Append(VarRef(fs), [FuncLit(f, fty)])])], [i])
+        app = [Assign([VarRef(fs)], [Append(VarRef(fs), [FuncLit(f, fty)])])]
+        form = r.random()
+        if form < 0.5:
+            loop = For('', [Decl([i], [IntLit(k, 0)])], Bin('lt', VarRef(i), IntLit(k, n)), [OpAssign('add', VarRef(i), IntLit(k, 1), incdec=True)], app, [i])
+        elif form < 0.75:
+            loop = RangeInt('', i, IntLit(k, n), app)
+            self.feat.add('closure-per-iteration-range')
+        else:
+            loop = RangeSeq('', None, i, SeqLit(('slice', k), [self.int_lit(k) for _ in range(n)]), app)
+            self.feat.add('closure-per-iteration-range')
         g = self.newvar(cx, fty, 'g')
         x = self.newvar(cx, k, 'x')
         call = RangeSeq('', None, g, VarRef(fs), [Decl([x], [CallV(VarRef(g), [])]), Print(True, [VarRef(x), VarRef(acc)])])
@@ -988,6 +1132,8 @@ class Gen:
             v = self.newvar(cx, t, 's')
             if r.random() < 0.6:
                 init = SeqLit(t, [self.expr(cx, et, 1) for _ in range(r.randint(0, 4))])
+            elif self.needs_init(et):
+                init = SeqLit(t, [self.expr(cx, et, 1) for _ in range(r.randint(0, 2))])
             elif r.random() < 0.5:
                 init = Make(t, IntLit(INT, r.randint(0, 4)))
             else:
@@ -1070,6 +1216,73 @@ class Gen:
         self.feat.add('string-index')
         return [If([], Bin('gt', LenCap('len', s), IntLit(INT, 0)), [Decl([ch], [Index(s, idx)]), Print(True, [VarRef(ch), LenCap('len', s)])], [])]
 
+    def s_shadow(self, cx):
+        """an inner block declaring a variable with the NAME of an outer one (initialised from the outer one)"""
+        r = self.rng
+        outer = [v for v in cx.vars() if is_int(under(v.ty)) or v.ty == STR]
+        if not outer:
+            return None
+        v = r.choice(outer)
+        inner = Var(self.P.slot(), v.name, v.ty)
+        if is_int(under(v.ty)):
+            init = Bin(r.choice(['add', 'sub', 'xor', 'mul']), VarRef(v), self.int_expr(cx, v.ty, 1))
+        else:
+            init = Bin('add', VarRef(v), self.str_lit())
+        cx.push()
+        cx.add(inner)
+        body = self.block(cx, r.randint(1, 3))
+        tail = [] if (body and isinstance(body[-1], (Break, Continue, Return))) or cx.pure else [Print(True, [StrLit(b"inner"), VarRef(inner)])]
+        cx.pop()
+        self.feat.add('shadowing')
+        out = [Block([Decl([inner], [init])] + body + tail)]
+        if not cx.pure:
+            out.append(Print(True, [StrLit(b"outer"), VarRef(v)]))
+        return out
+
+    def s_methodval(self, cx):
+        """f := x.M (method value, receiver bound now) / f := T.M, (*T).M (method expression)"""
+        r = self.rng
+        cands = []
+        for e, t in self.readables(cx):
+            if isinstance(e, VarRef) and e.var.maybe_nil:
+                continue
+            u = under(t)
+            dd = None
+            if isinstance(u, tuple) and u[0] == 'named' and u[1].kind in ('struct', 'basic') and not u[1].generic:
+                dd = u[1]
+            elif isinstance(t, tuple) and t[0] == 'named' and t[1].kind == 'basic':
+                dd = t[1]
+            elif isinstance(u, tuple) and u[0] == 'ptr' and isinstance(under(u[1]), tuple) and under(u[1])[0] == 'named' \
+                    and under(u[1])[1].kind == 'struct' and not under(u[1])[1].generic:
+                dd = under(u[1])[1]
+            if dd is not None:
+                for mn, f in self.methods_of(dd).items():
+                    if f is not cx.fn and f.pkg <= cx.pkg:
+                        cands.append((e, mn, f, dd))
+            elif isinstance(t, tuple) and t[0] == 'named' and t[1].kind == 'iface':
+                for mn, ps, rs in t[1].methods:
+                    cands.append((e, mn, IfaceMeth(t[1], mn, ps, rs), None))
+        if not cands:
+            return None
+        e, mn, f, dd = r.choice(cands)
+        if not self.affordable(cx, f.cost):
+            return None
+        own = dd is not None and not getattr(f, 'is_iface', False) and f.recv[0] is dd and dd.pkg <= cx.pkg
+        if own and r.random() < 0.35:
+            rt = ('ptr', ('named', dd)) if f.recv[1] else ('named', dd)
+            fty = self.P.sig([rt] + [p.ty for p in f.params[1:]], [x.ty for x in f.results])
+            init = MethodExpr(f, fty)
+            self.feat.add('method-expression')
+        else:
+            fty = self.P.sig([p.ty for p in f.params[1:]], [x.ty for x in f.results])
+            init = MVal(e, mn, fty)
+            self.feat.add('method-value')
+        v = self.newvar(cx, fty, 'f')
+        v.readonly = True
+        v.cost = f.cost + 2
+        cx.add(v)
+        return [Decl([v], [init])]
+
     def s_pointer(self, cx):
         w = [(e, t) for e, t in self.writables(cx) if is_simple(t) and self.type_pkg(t) <= cx.pkg]
         r = self.rng
@@ -1077,7 +1290,8 @@ class Gen:
             e, t = r.choice(w)
             init = Addr(e)
         else:
-            t = ('named', r.choice([s for s in self.structs if s.pkg <= cx.pkg])) if self.structs and r.random() < 0.7 else tint(self.kind())
+            us = [s for s in self.ustructs() if s.pkg <= cx.pkg]
+            t = ('named', r.choice(us)) if us and r.random() < 0.7 else tint(self.kind())
             if t[0] == 'named' and t[1].pkg > cx.pkg:
                 t = INT
             init = New(self.leaf(cx, t, 1) if t[0] == 'named' else Zero(t))
@@ -1089,7 +1303,7 @@ class Gen:
 
     def s_iface(self, cx):
         r = self.rng
-        ifs = [d for d in self.ifaces if d.pkg <= cx.pkg and any(self.type_pkg(t) <= cx.pkg for t in d.impls)]
+        ifs = [d for d in self.ifaces if d.pkg <= cx.pkg and self.flat_impls(cx, ('named', d))]
         if ifs and r.random() < 0.6:
             d = r.choice(ifs)
             ity = ('named', d)
@@ -1105,7 +1319,7 @@ class Gen:
             self.feat.add('any')
             return [Decl([v], [self.to_any(cx)])]
         a = r.choice(anys)
-        t = r.choice([tint(self.kind()), STR, BOOL] + [('named', s) for s in self.structs if s.pkg <= cx.pkg])
+        t = r.choice([tint(self.kind()), STR, BOOL] + [('named', s) for s in self.structs if s.pkg <= cx.pkg and not self.needs_init(('named', s))])
         x, ok = self.newvar(cx, t), self.newvar(cx, BOOL, 'ok')
         cx.add(x)
         cx.add(ok)
